@@ -62,6 +62,10 @@ def run(ctx):
     for name, consts in mulcfgs:
         cfg = fw.write_cfg(ctx.path("MC_IntMulAlg_%s.cfg" % name), invariants=["AddSignedMulOK", "MultiplyOK", "SqrOK", "RefOK"], constants=consts)
         ctx.mc("mc-mulalg-" + name, "C01", "MC_IntMulAlg.tla", cfg, timeout=3000)
+    # pow.rs: factor-of-two removal, lifting of a word base, the square-and-multiply loops with their buffer / scratch bookkeeping
+    for w in ctx.pick((4,), (3, 4, 5)):
+        pcfg = fw.write_cfg(ctx.path("MC_IntPowAlg_w%d.cfg" % w), invariants=["PowOK"], constants={"W": w, "MaxBits": 30})
+        ctx.mc("mc-powalg-w%d" % w, "C01", "IntPowAlg.tla", pcfg, workers=4)
     # scratch-memory accounting of the same stack, with the thresholds and requirement formulas read from the source
     sc0 = fw.source_constants()
     memc = {"TS": sc0["MUL_THRESHOLD_SIMPLE"], "TK": sc0["MUL_THRESHOLD_KARATSUBA"], "SqrSimple": sc0["SQR_MAX_LEN_SIMPLE"],
